@@ -14,6 +14,10 @@
     recover <r> <s> <h> <recid>       -> ok <x> <y> | inf | none
     ssign <m> <sk> <aux>              -> m <sig|none> s <sig|none>
     legacy ecdsa|schnorr|tweak …      -> the model of the pinned snapshot (before the fix: commits)
+    schnorre <pk> <sig> <e32>         -> <model 0|1> <spec 0|1>   SchnorrVerify / BIP340 verify evaluated with the
+                                         CONSTANT hash function H = fun _ => e32 (the theorems hold for every H),
+                                         i.e. with the challenge bytes injected: the only way to reach e ≥ n
+    ecmult <pk33|65> <neg 0|1> <mag> <ng> -> inf | <x> <y>      Sig.ecmult A (±mag) ng  (XYZ.ECmult, na possibly negative)
 -/
 import GocoinV.Model.Sig
 import GocoinV.Spec.Ecdsa
@@ -116,6 +120,25 @@ def step (_ : Unit) (toks : List String) : Unit × String :=
     | some m, some sk, some a =>
       let o := fun (x : Option Bytes) => match x with | some s => Hex.encode s | none => "none"
       ((), s!"m {o (Sig.schnorrSign sha256 m sk a)} s {o (Spec.Bip340.sign sha256 m sk a)}")
+    | _, _, _ => bad
+  | ["schnorre", pk, sg, e] =>
+    match Hex.decode pk, Hex.decode sg, Hex.decode e with
+    | some pk, some sg, some e =>
+      if e.length ≠ 32 then bad else
+      let H : C03.Hash := fun _ => e
+      ((), s!"{b (Sig.schnorrVerify H pk sg [])} {b (Spec.Bip340.verify H pk sg [])}")
+    | _, _, _ => bad
+  | ["ecmult", pk, neg, mag, ng] =>
+    match Hex.decode pk, Hex.decode mag, Hex.decode ng with
+    | some pk, some mag, some ng =>
+      if neg ≠ "0" ∧ neg ≠ "1" then bad else
+      match Secp.parsePubkey pk with
+      | none => bad
+      | some A =>
+        let na : Int := if neg == "1" then - ((beVal mag : Nat) : Int) else ((beVal mag : Nat) : Int)
+        match Sig.ecmult (some A) na (beVal ng) with
+        | none => ((), "inf")
+        | some (x, y) => ((), s!"{nat32 x} {nat32 y}")
     | _, _, _ => bad
   | ["legacy", "ecdsa", pk, sg, msg] =>
     match Hex.decode pk, Hex.decode sg, Hex.decode msg with
